@@ -10,13 +10,17 @@ NOTE_COMMON = ("Assumes A-int (mathematical integers), A-float (floats are reals
                "pyvc VC generator. Bounded parts are labelled bounded and never counted as proved.")
 
 P = {
-    "C01": dict(cat="exploration", text=(
+    "C01": dict(cat="other", text=(
+        "Proved for all sorted inputs: the counting merge __merge returns the sorted merge (same multiset) and adds to "
+        "s_1[1] exactly the number of pairs left[i] > right[j] and to s_2[0] exactly the number of pairs left[i] == "
+        "right[j], touching nothing else (5 loop invariants, 7 induction lemmas on counting specs); the run-length loop of "
+        "__cost_by_ranking adds to s_1[2] exactly the number of strictly ordered pairs of a sorted bucket (fragment). "
         "Bounded: every (candidate, input ranking) pair over <= 4 elements (<= 5 thorough) checked against the pairwise "
         "definition through a scheme whose penalties are distinct powers of 64 (a linear functional with small integer "
         "coefficients is determined by its value), seeded multi-ranking datasets under 25 schemes, supersets, refusals, "
-        "the lazy Consensus path, and one factory reused over sequences of calls. T1 contributes only frame obligations "
-        "(the scoring class writes no state). The n log n counting kernel is not under deductive contract."),
-        tech=TECH_T2 + "; syntactic frame obligations for the scoring class"),
+        "the lazy Consensus path, and one factory reused over sequences of calls; the recursion __mergesortlike, the "
+        "missing-element counts and the completeness refusal are bounded only."),
+        tech=TECH_MIX),
     "C02": dict(cat="proof", text=(
         "Proved for all inputs (any n, m, weights, any 2x6 scheme with symmetric T): every off-diagonal cell of the table "
         "built by the numba kernel equals the definitional sum over rankings, the diagonal is 0, inputs are unchanged, "
